@@ -65,7 +65,7 @@ func replayCmd(verifDir, repoDir, path string) int {
 		var hs []instr.HashFunc
 		for _, want := range rp.WeakHashes {
 			for _, have := range e.Report.HashFuncs {
-				if have.Name == want.Name && have.File == want.File {
+				if have.Name == want.Name && have.File == want.File && have.Var == want.Var && have.Inline == want.Inline {
 					hs = append(hs, have)
 					break
 				}
